@@ -297,7 +297,13 @@ const (
 // ---------------------------------------------------------------------------------------------
 // Frame: one activation (top-level function or inlined closure).
 
+type deferredCall struct {
+	ins *ssa.Defer
+	pc  *Term
+}
+
 type Frame struct {
+	deferred []deferredCall
 	enc      *Enc
 	fn       *ssa.Function
 	fc       *FuncContract
@@ -350,6 +356,7 @@ type loopInfo struct {
 	backs   []*ssa.BasicBlock
 	entryState *State
 	phiEntry map[*ssa.Phi]*Term
+	ghostK, ghostKHead *Term // ghost iteration counter for loops without a range index
 }
 
 func (enc *Enc) newFrame(fn *ssa.Function, fc *FuncContract, parent *Frame) *Frame {
